@@ -20,6 +20,12 @@ class ExprMixin:
         m = getattr(self, "ex_" + type(node).__name__, None)
         if m is None:
             raise Unmodelled("expression %s at %s" % (type(node).__name__, frame.loc(node)))
+        if self.cfg.lenient and isinstance(node, (ast.BinOp, ast.Call, ast.Subscript, ast.UnaryOp)):
+            try:
+                return m(node, frame)
+            except Unmodelled as e:
+                self.ctx.event("unmodelled-value", str(e), frame.loc(node))
+                return Num(Rat.sym("?%s:%s" % (frame.loc(node), getattr(node, "col_offset", 0))))
         return m(node, frame)
 
     # -- leaves ----------------------------------------------------------
